@@ -34,6 +34,19 @@ func c12History(w *gen.World, rng *rand.Rand, n int) []c02Query {
 	base := w.Queries(rng, 40)
 	clients := w.Clients(rng)
 	var out []c02Query
+	// the longest declared names, asked over UDP without EDNS in one spelling and then in another: a cached answer that
+	// keeps the first spelling does not compress against the second question and no longer fits 512 bytes
+	for _, o := range w.Owners {
+		if len(o) < 200 {
+			continue
+		}
+		for _, t := range []uint16{dns.TypeA, dns.TypeTXT, dns.TypeAAAA} {
+			lower := c02Query{Name: gen.Presentation(o), Type: t, Class: dns.ClassINET, IP: clients[0].IP}
+			upper := lower
+			upper.Name = strings.ToUpper(lower.Name)
+			out = append(out, lower, upper, lower)
+		}
+	}
 	for len(out) < n {
 		b := base[rng.Intn(len(base))]
 		name := gen.Presentation(b.Name)
